@@ -367,6 +367,63 @@ impl SimClient {
         self.net.send(self.device, kind, req, bytes).await
     }
 
+    /// File routes: the signature is over the URL path (as the real
+    /// `HttpClient` does), the body is opaque bytes or a caller-built stream.
+    pub async fn file_request(
+        &self,
+        kind: &str,
+        method: Method,
+        path: &str,
+        extra_query: Option<&str>,
+        body: Option<axum::body::Body>,
+        body_bytes_for_tap: Vec<u8>,
+    ) -> Result<(StatusCode, Option<String>, Vec<u8>), SimError> {
+        if !self.online.load(SeqCst) {
+            return Err(SimError::Transport("offline".into()));
+        }
+        let auth = bearer(&self.signer, path.as_bytes()).await?;
+        let mut uri = self.uri(path);
+        if let Some(q) = extra_query {
+            uri.push('&');
+            uri.push_str(q);
+        }
+        let mut b = Request::builder()
+            .method(method)
+            .uri(uri)
+            .header(X_SOS_ACCOUNT_ID, self.account_id.to_string())
+            .header(http::header::AUTHORIZATION, auth);
+        if body.is_some() {
+            b = b.header(http::header::CONTENT_TYPE, "application/octet-stream");
+        }
+        let req = b
+            .body(body.unwrap_or_else(axum::body::Body::empty))
+            .map_err(|e| SimError::Transport(format!("build: {e}")))?;
+        self.net.send(self.device, kind, req, body_bytes_for_tap).await
+    }
+
+    /// `POST /sync/files`: which files does the server lack / hold in addition.
+    pub async fn compare_files(
+        &self,
+        local: sos_protocol::transfer::FileSet,
+    ) -> Result<sos_protocol::transfer::FileTransfersSet, SimError> {
+        let body = local.encode().await?;
+        let auth = bearer(&self.signer, ROUTE_FILES.as_bytes()).await?;
+        if !self.online.load(SeqCst) {
+            return Err(SimError::Transport("offline".into()));
+        }
+        let req = Request::builder()
+            .method(Method::POST)
+            .uri(self.uri(ROUTE_FILES))
+            .header(X_SOS_ACCOUNT_ID, self.account_id.to_string())
+            .header(http::header::AUTHORIZATION, auth)
+            .header(http::header::CONTENT_TYPE, MIME_PROTOBUF)
+            .body(axum::body::Body::from(body.clone()))
+            .map_err(|e| SimError::Transport(format!("build: {e}")))?;
+        let r = self.net.send(self.device, "compare_files", req, body).await?;
+        let b = self.check(r)?;
+        Ok(sos_protocol::transfer::FileTransfersSet::decode(bytes::Bytes::from(b)).await?)
+    }
+
     fn check(
         &self,
         r: (StatusCode, Option<String>, Vec<u8>),
